@@ -103,6 +103,14 @@ CLAIMED = {
              'object creation is guarded by the entity mask of its own kind, each PBF field consumed exactly once, read_meta switches metadata only, options forwarded unchanged. '
              'NOT decided: behaviour under real schedules, decoder content (C01/C02).',
         design='5/C05', note='trusts clang CFG and the resolved call graph (no edges through expat C callbacks), driver instantiation set'),
+    'C10': dict(
+        technique='static analysis: pipeline-order/dominance rules on BasicAssembler::create_rings, reject-flow path search over three-valued conditions, SORTED engine, symbolic execution of segment predicates over order-type worlds (polynomial values)',
+        text='Decides the structural clauses only: stage order of create_rings and that no accepting path bypasses a stage; every rejecting result propagates to a false return; each problem '
+             'counter is paired with its problem-reporter call; every binary search/adjacent_find on the sorted vectors uses the sort key and is reached only after the sort with no insertion in '
+             'between; segment normal form and primary sort key; the sweep pre-filters only skip provably disjoint ranges (for all coordinate orderings); the ray-crossing interval convention '
+             'counts each end point exactly once; rings are added and the buffer committed only after success, rolled back otherwise; duplicates cancel in pairs. '
+             'NOT decided (the bulk of the property): validity, orientation, nesting, even-odd coverage, permutation invariance of the assembled geometry.',
+        design='5/C10', note='narrow structural clauses; trusts clang CFG/template instantiation of drivers/relarea.cpp, the frozen counter<->report table'),
     'C11': dict(
         technique='static analysis: SORTED engine (sort-before-search, comparator-key prefix agreement), CFG pairing/ordering rules on track/add/remove/handle_complete_relation, dispatch-table agreement',
         text='Decides: the members-database search key is a prefix of its sort key, the searched vector is sorted over its whole range by the prepare step every lookup follows, key fields are '
